@@ -73,7 +73,7 @@ def evaluate(case):
 def shards(tier, seed):
     n = 12000 if tier == "thorough" else 1300
     specs = [{"seed": seed, "lo": i * n, "hi": (i + 1) * n} for i in range(16)]
-    specs.append({"seed": seed, "lo": 0, "hi": 2000 if tier == "thorough" else 200, "optimise": True})
+    specs.extend({"seed": seed, "lo": k * 400, "hi": (k + 1) * 400, "optimise": True} for k in range(10 if tier == "thorough" else 3))
     return specs
 
 
